@@ -1,6 +1,29 @@
-//! C01 (c): MTBDD / TDD value-table canonicity — filled in once those adapters exist.
+//! C01 (c): MTBDD / TDD value-table canonicity.
 use std::io::Write;
 
-use crate::engine::Cfg;
+use crate::engine::*;
+use crate::hist::Checks;
+use crate::vhist::vhist_campaign;
+use crate::vkinds::*;
 
-pub fn add_jobs<'a>(_cfg: &'a Cfg, _jobs: &mut Vec<Box<dyn FnMut(&mut dyn Write) + 'a>>, _names: &mut Vec<String>) {}
+pub fn add_jobs<'a>(cfg: &'a Cfg, jobs: &mut Vec<Box<dyn FnMut(&mut dyn Write) + 'a>>, names: &mut Vec<String>) {
+    let checks = Checks { canon: true, structure: false, rc: false, node_count: true };
+    let nt = |s: &crate::hrun::CaseStats| s.equal_pairs_after_event > 0 || s.rebuilds_after_event > 0 || s.repeats_after_event > 0;
+    for sh in 0..cfg.t(2, 5) {
+        let cases = cfg.t(700, 10000);
+        macro_rules! add {
+            ($K:ty, $salt:expr) => {
+                let seed = mix(cfg.seed ^ (0xc01_f00 + $salt * 100 + sh as u64));
+                names.push(format!("vhist/{}/{}", <$K>::NAME, sh));
+                jobs.push(Box::new(move |w: &mut dyn Write| {
+                    let mut rep = Report::default();
+                    vhist_campaign::<$K>("C01", seed, cases, checks, 6, 6, &[16], &mut rep, &nt);
+                    rep.emit(w);
+                }));
+            };
+        }
+        add!(MtI64K, 1);
+        add!(MtF64K, 2);
+        add!(TddK, 3);
+    }
+}
